@@ -503,7 +503,15 @@ func poolFullInit(c *Ctx, r *Report, rule string) {
 				}
 				assigned := map[*types.Var]*cover{}
 				all := false
-				note := func(recv types.Object, inf *types.Info, s ast.Stmt) {
+				var note func(recv types.Object, inf *types.Info, s ast.Stmt)
+				note = func(recv types.Object, inf *types.Info, s ast.Stmt) {
+					if blk, isBlk := s.(*ast.BlockStmt); isBlk {
+						// a plain nested block runs unconditionally (an expanded helper call leaves one behind)
+						for _, st := range blk.List {
+							note(recv, inf, st)
+						}
+						return
+					}
 					a, ok := s.(*ast.AssignStmt)
 					if !ok {
 						return
